@@ -145,15 +145,7 @@ func (e *Engine) jsonUnsupported(st *State, v Value, depth int) string {
 	return ""
 }
 
-func registerJSON(e *Engine) {
-	e.Intr["encoding/json.Marshal"] = func(c *Call) []*State {
-		if msg := e.jsonUnsupported(c.St, c.Args[0], 0); msg != "" {
-			return c.Return(Tuple{Slice{}, e.newErrorString(c.St, StrC(msg))})
-		}
-		p := FreshVar("json.payload", SString, 0)
-		return c.Return(Tuple{Bytes{S: p}, Iface{}})
-	}
-}
+func registerJSON(e *Engine) {}
 
 // sort.Slice / sort.SliceStable (n <= 12): stable insertion sort calling the real less
 // closure (Go's pdqsort uses insertion sort for n <= 12, hence is stable there). The
